@@ -60,6 +60,25 @@ package keeper
 //@   modifies store(ctx, "assets"), store(ctx, "delegation")
 
 // Slash: a reported failure leaves no trace, and a slash id is executed at most once.
+// per asset pool of the slashed operator: the pool loses trunc(p * amount), the loss is recorded, nothing grows;
+// a pool slashed to zero has no shares left (C02: shares are zero whenever the pool amount is zero). The last
+// requires is the C02 store invariant instance "no delegator list => no shares" for this pool.
+//@ define sa2Slash(p, a) = tdiv(val(p) * a, P18)
+//@ func (*Keeper).SlashAssets$2
+//@   requires state != nil && executionInfo != nil && !isnil(newSlashProportion) && parameter != nil
+//@   requires !isnil(state.TotalAmount) && !isnil(state.TotalShare) && !isnil(state.OperatorShare) && !isnil(state.PendingUndelegationAmount)
+//@   requires val(state.TotalAmount) >= 0 && 0 <= val(newSlashProportion) && val(newSlashProportion) <= P18
+//@   requires get(ctx, "delegation", slKey(accstr(parameter.Operator), assetID)) == nil ==> val(state.TotalShare) == 0 && val(state.OperatorShare) == 0
+//@   modifies *state, state(ctx), *executionInfo, heap["x/operator/types.SlashFromAssetsPool"]
+//@   ensures[C04.sa2.amount] err == nil ==> val(state.TotalAmount) == old(val(state.TotalAmount)) - sa2Slash(newSlashProportion, old(val(state.TotalAmount)))
+//@   ensures[C04.sa2.bounds] err == nil ==> 0 <= val(state.TotalAmount) && val(state.TotalAmount) <= old(val(state.TotalAmount))
+//@   ensures[C04.sa2.record] err == nil ==> len(executionInfo.SlashAssetsPool) == old(len(executionInfo.SlashAssetsPool)) + 1 &&
+//@        executionInfo.SlashAssetsPool[old(len(executionInfo.SlashAssetsPool))].AssetID == assetID &&
+//@        val(executionInfo.SlashAssetsPool[old(len(executionInfo.SlashAssetsPool))].Amount) == sa2Slash(newSlashProportion, old(val(state.TotalAmount)))
+//@   ensures[C04.sa2.pending] err == nil ==> state.PendingUndelegationAmount == old(state.PendingUndelegationAmount)
+//@   ensures[C04.sa2.shares]  err == nil && val(state.TotalAmount) != 0 ==> state.TotalShare == old(state.TotalShare) && state.OperatorShare == old(state.OperatorShare)
+//@   ensures[C02.sa2.zero]   err == nil && val(state.TotalAmount) == 0 ==> val(state.TotalShare) == 0 && val(state.OperatorShare) == 0
+
 //@ func (*Keeper).Slash
 //@   requires parameter != nil
 //@   modifies state(ctx)
